@@ -36,15 +36,21 @@ def class_env(cname):
     defaults = [k for k, f in flds.items() if f.default is not dataclasses.MISSING]
     own = set(twin.__dict__) - set(defaults)
     base = set(dir(twin)) - set(defaults)
+    td_cm = [a for a in t["TD"].__dict__ if inspect.ismethod(getattr(t["TD"], a))]
+    cmw = []
     if how == "subclass":
         parent = C.__mro__[1]
         base |= set(dir(parent))
-    td_cm = [a for a in t["TD"].__dict__ if inspect.ismethod(getattr(t["TD"], a))]
-    return {"base": sorted(base), "own": sorted(own), "fields": list(flds), "nt": False, "tdcm": td_cm}
+        for a in td_cm:      # inherited wrappers of the classmethod loop (installed on an already decorated base)
+            v = inspect.getattr_static(parent, a, None)
+            code = getattr(v, "__code__", None)
+            if code is not None and code.co_name == "wrapped_func" and "td_cls" in code.co_freevars:
+                cmw.append(a)
+    return {"base": sorted(base), "own": sorted(own), "fields": list(flds), "nt": False, "tdcm": td_cm, "cmw": cmw}
 
 
 def env_sx(e):
-    return [strs(e["base"]), strs(e["own"]), strs(e["fields"]), e["nt"], strs(e["tdcm"])]
+    return [strs(e["base"]), strs(e["own"]), strs(e["fields"]), e["nt"], strs(e["tdcm"]), strs(e["cmw"])]
 
 
 def observed_dispatch(C, n, fields):
